@@ -21,7 +21,7 @@ import (
 // the signing certificate's window or on NotBefore/NotAfter +/- {0,1ns,1s}.
 
 var c02Kinds = []string{"response", "assertions", "both-badR", "logout-request", "logout-response", "both-good"}
-var c02Signers = []string{"trusted", "untrusted", "trusted-cert-foreign-key", "tampered", "twin-cert-not-in-store", "trusted-member-2"}
+var c02Signers = []string{"trusted", "untrusted", "trusted-cert-foreign-key", "tampered", "twin-cert-not-in-store", "trusted-member-2", "lookalike-cert-foreign-key"}
 var c02ClockModes = []string{"inside", "nb-1s", "nb-1ns", "nb", "nb+1ns", "na-1ns", "na", "na+1ns", "na+1s"}
 
 func init() {
@@ -33,7 +33,7 @@ func init() {
 			"oracle: reference rule for 'honoured' and the never-downgrade invariant; distinct = shape hash (store size, events, kind, signer, KeyInfo, clock mode, outcome) per step",
 		Directed:   c02Directed,
 		Run:        c02Run,
-		MustHit:    []string{"clock=nb", "clock=nb-1ns", "clock=na", "clock=na+1ns", "signer=untrusted", "signer=trusted-cert-foreign-key", "signer=tampered", "signer=twin-cert-not-in-store", "no_keyinfo", "store=0", "store=1", "store>=2", "store_error", "idp_key_rollover", "cert_retired", "store_replaced", "sp_restart", "kind=both-badR", "same_issuer_serial", "assertions_signed_by_different_parties"},
+		MustHit:    []string{"clock=nb", "clock=nb-1ns", "clock=na", "clock=na+1ns", "signer=untrusted", "signer=trusted-cert-foreign-key", "signer=tampered", "signer=twin-cert-not-in-store", "signer=lookalike-cert-foreign-key", "no_keyinfo", "store=0", "store=1", "store>=2", "store_error", "idp_key_rollover", "cert_retired", "store_replaced", "sp_restart", "kind=both-badR", "same_issuer_serial", "assertions_signed_by_different_parties"},
 		RandomRuns: map[string]int{"quick": 6000, "thorough": 60000},
 		Assumptions: []string{"X.509 validity is inclusive at both ends (NotBefore <= now <= NotAfter), certificate identity is DER equality",
 			"the SP certificate chain is never checked by the library, so stub certificates are issued by a stub CA"},
@@ -209,6 +209,9 @@ func c02Run(r *core.Run) {
 		case "tampered":
 			signCert, signKey = base.cert, base.key
 			tamper = true
+		case "lookalike-cert-foreign-key":
+			// a certificate of the attacker's key that copies subject, issuer, serial, validity and key identifier
+			signCert, signKey = world.MintLookalike(base.cert, attackerKey), attackerKey
 		case "twin-cert-not-in-store":
 			signCert, signKey = world.MintCert(base.key, base.cert.X509.NotBefore.Add(-time.Second), base.cert.X509.NotAfter, 7), base.key
 		}
